@@ -62,3 +62,15 @@ Definition is_timeframe (tf : Z) : bool := existsb (Z.eqb tf) timeframe_duration
 
 (** a timeframe that tiles the day *)
 Definition divides_day (tf : Z) : bool := (0 <? tf) && (utils_Day mod tf =? 0).
+
+(** boolean guards of the C30 theorems, evaluated on every harness case:
+    both local-midnight ends of year [y] are shown exactly once by the clock of [z] (Tz.cross_okb),
+    carry offsets within a day, and the two offsets are equal (the year is 365/366 days long) *)
+Definition year_okb (z : tz) (y : Z) : bool :=
+  cross_okb z (dby y * SPD) && cross_okb z (dby (y + 1) * SPD)
+  && off_okb (day_off z (dby y)) && off_okb (day_off z (dby (y + 1)))
+  && (day_off z (dby y) =? day_off z (dby (y + 1))).
+
+(** the local midnights bounding t's calendar day are regular (not inside a DST gap or overlap) *)
+Definition day_okb (z : tz) (t : Z) : bool :=
+  cross_okb z (local_days z t * SPD) && cross_okb z ((local_days z t + 1) * SPD).
